@@ -15,7 +15,7 @@ func init() {
 	register(&Property{
 		ID:          "C02",
 		NeedSSA:     true,
-		Decided:     "Structural necessary conditions: (sink) the destination io.Writer is written only inside the three methods of the offset-tracking wrapper, each of which adds the byte count to the offset on every path, and the bufio layer is only Reset/Flushed elsewhere, so every byte that reaches the sink is counted in the offsets the footer records; (offsets) the offset and length fields of column chunks, row groups and page locations derive from that running offset (or differences of it), and the page locations of a chunk are re-based by the data page offset in both the encoded and the copied branch; (header) the fields of each page header come from the matching accessor of the page or buffer (NumValues, NumNulls, NumRows, Encoding(), len(definitions), len(repetitions)), the uncompressed size is taken after the v1 levels are prepended and before compression, the compressed size and CRC after it, all before the header is encoded; (deferred) a buffer that holds a deferred bloom filter is rewound to its start before it is queued; (indexer) per-page index arrays stay aligned with pages (C05.indexer); (own) footer structs do not share storage with live writer state (C17.own); (reset) dictionaries, indexers and column writers start every row group from a clean state (C17.reset instances). (offsets, cont.) the offset added to the page locations of a chunk is the very measurement stored as DataPageOffset, in writeRowGroup and the helpers it calls. (twins) where a function records a struct either by appending a composite literal or by refilling a recycled element of the same list, every numeric field set on both sides from a value computed before the branches part is set from the same value.",
+		Decided:     "Structural necessary conditions: (sink) the destination io.Writer is written only inside the three methods of the offset-tracking wrapper, each of which adds the byte count to the offset on every path, and the bufio layer is only Reset/Flushed elsewhere, so every byte that reaches the sink is counted in the offsets the footer records; (offsets) the offset and length fields of column chunks, row groups and page locations derive from that running offset (or differences of it), and the page locations of a chunk are re-based by the data page offset in both the encoded and the copied branch; (header) the fields of each page header come from the matching accessor of the page or buffer (NumValues, NumNulls, NumRows, Encoding(), len(definitions), len(repetitions)), the uncompressed size is taken after the v1 levels are prepended and before compression, the compressed size and CRC after it, all before the header is encoded; (deferred) a buffer that holds a deferred bloom filter is rewound to its start before it is queued; (indexer) per-page index arrays stay aligned with pages (C05.indexer); (own) footer structs do not share storage with live writer state (C17.own); (reset) dictionaries, indexers and column writers start every row group from a clean state (C17.reset instances). (offsets, cont.) the offset added to the page locations of a chunk is the very measurement stored as DataPageOffset, in writeRowGroup and the helpers it calls. (twins) where a function records a struct either by appending a composite literal or by refilling a recycled element of the same list, every numeric field set on both sides from a value computed before the branches part is set from the same value. (deferred, cont.) between the rewind of a deferred bloom filter buffer and the moment it is queued nothing else is called with the buffer (a rewind before the buffer is filled leaves it at its end); every function of the package that queues such a buffer is examined.",
 		NotDecided:  "agreement with an independent decoder; thrift encoding; sizes and counts as numbers; row-boundary alignment of pages written through the column-oriented re-encode path (see C11.rows).",
 		Assumptions: []string{"the footer records what the struct fields hold; the thrift encoder serialises them faithfully"},
 		Run:         runC02,
@@ -350,7 +350,39 @@ func c02Deferred(c *Ctx) {
 					o, ok1 := cc.Args[0].(*ssa.Const)
 					w, ok2 := cc.Args[1].(*ssa.Const)
 					if ok1 && ok2 && o.Int64() == 0 && w.Int64() == 0 && dominates(call.(ssa.Instruction), st) {
-						rewound = true
+						// … and nothing is written into the buffer between the rewind and
+						// the moment it is queued (a rewind before the buffer is filled
+						// leaves it positioned at its end)
+						touched := false
+						for _, src2 := range vals {
+							if src2.Referrers() == nil {
+								continue
+							}
+							var users []ssa.Instruction
+							for _, r2 := range *src2.Referrers() {
+								users = append(users, r2)
+								// handed over as another interface (io.Writer)
+								if ci, ok := r2.(*ssa.ChangeInterface); ok {
+									users = append(users, *ci.Referrers()...)
+								}
+								if mi, ok := r2.(*ssa.MakeInterface); ok {
+									users = append(users, *mi.Referrers()...)
+								}
+							}
+							for _, r2 := range users {
+								c2, isCall := r2.(ssa.CallInstruction)
+								if !isCall || c2 == call {
+									continue
+								}
+								i2 := c2.(ssa.Instruction)
+								if dominates(call.(ssa.Instruction), i2) && dominates(i2, st) {
+									touched = true
+								}
+							}
+						}
+						if !touched {
+							rewound = true
+						}
 					}
 				}
 			}
